@@ -786,6 +786,8 @@ package vanguard
 //@   ensures[C06,C02] err == nil ==> validConf(o.methodConf) && (typeIs(o.client.protocol, restClientProtocol) ==> o.restTarget != nil && o.restTarget.config == o.methodConf)
 //@   ensures[C06] err != nil ==> o.methodConf == old(o.methodConf)
 //@   ensures[C19] err == nil && !typeIs(o.client.protocol, restClientProtocol) && o.request.Method != "POST" ==> o.request.Method == "GET" && typeIs(o.client.protocol, connectUnaryGetClientProtocol)
+//@   ensures[C19] err == nil && !typeIs(o.client.protocol, restClientProtocol) && o.request.Method != "POST" ==> noSideEffects(o.methodConf)
+//@   ensures[C19] err != nil && !typeIs(o.client.protocol, restClientProtocol) && has(transcoder.methods, o.request.URL.Path) && transcoder.methods[o.request.URL.Path] != nil ==> isHTTPErr(err) && httpStatus(err) == 405 && o.request.Method != "POST"
 //@   ensures o.isValid == old(o.isValid) && o.client.protocol == old(o.client.protocol) && o.originalHeaders == old(o.originalHeaders) && o.contentLen == old(o.contentLen)
 //@   modifies o.restTarget, o.restVars, o.methodConf, #LIB0
 
